@@ -27,6 +27,15 @@ ANY_OUT = -99
 KEYS = ("vals", "refs", "fin", "under")
 
 
+def enabled():
+    """The part needs its fix commits (docs/X05_containers.md) in the tree under test: it is switched on by the marker file
+    checks/x05_containers.accepted (created when those commits are integrated) or by VERIF_X05=1, off by VERIF_X05=0."""
+    env = os.environ.get("VERIF_X05")
+    if env is not None:
+        return env not in ("0", "")
+    return os.path.exists(os.path.join(vlib.ROOT, "checks", "x05_containers.accepted"))
+
+
 def match(exp, obs, step=None, rec=None, prev=None):
     for k in KEYS:
         if obs.get(k) != exp[k]:
@@ -610,9 +619,7 @@ def run_part(ck, tier):
     return ok and iook
 
 
-def replay(path):
-    d = json.load(open(path))
-    det = d["detail"]
+def replay(det, path="-"):
     beh = det.get("behaviour")
     if not beh:
         print(json.dumps(det, indent=1)[:4000])
@@ -639,7 +646,7 @@ if __name__ == "__main__":
     # development entry: runs the part alone, prints violations, writes no evidence
     tier = sys.argv[1] if len(sys.argv) > 1 else "quick"
     if tier == "replay":
-        sys.exit(replay(sys.argv[2]))
+        sys.exit(replay(json.load(open(sys.argv[2]))["detail"], sys.argv[2]))
     ck = vlib.Check("C05", tier)
     ck.pid = "X05dev"
     run_part(ck, tier)
